@@ -421,10 +421,134 @@ class Gen:
             r.shuffle(f.components)                 # declaration order ≠ creation order → forward references
         if cfg["reuse_names"]:
             self.add_decoys()
+        if r2_twin(self) < cfg.get("p_twin", 0.0):
+            self.add_twin()
+        self.spell_defaults()
         ss = SchemaSet(self.files, self.files[0].filename, None, self.features)
         if cfg["wsdl"]:
             self.make_wsdl(ss)
         return ss
+
+    def add_twin(self):
+        """A "twin" file: same layout as an existing file (same components in the same order, same local names — as two versions
+        or siblings written from one template), other namespace, other member names and member types. Everything that imports the
+        original imports the twin as well. A resolver that confuses the two files (positions, names) gives the twin's types the
+        original's members."""
+        import copy
+        import random
+
+        def own_only(f):
+            def refs(c):
+                out = []
+                for attr in ("base", "type"):
+                    t = getattr(c, attr, None)
+                    if t is not None:
+                        out.append(t)
+                content = getattr(c, "content", None)
+                if content is not None:
+                    def walk(g):
+                        for it in g.items:
+                            if isinstance(it, Group):
+                                walk(it)
+                            else:
+                                out.append(it.ref if it.kind == "ref" else it.type)
+                    if content.group is not None:
+                        walk(content.group)
+                    out.extend(a.type for a in content.attrs)
+                return out
+            return all(t.builtin or t.file == f.idx for c in f.components for t in refs(c))
+
+        cands = [f for f in self.files if f.idx >= 1 and f.uri is not None and f.idx not in self.tns_only and f.components
+                 and own_only(f) and f.idx not in f.imports]
+        if not cands:
+            return
+        r2 = random.Random("twin:" + "|".join(c.name.xml for f in self.files for c in f.components))
+        a = r2.choice(cands)
+        memo = {}
+        for f in self.files:
+            if f is not a:
+                for c in f.components:
+                    memo[id(c)] = c
+        comps = copy.deepcopy(a.components, memo)
+        bidx = len(self.files)
+        used = {f.uri for f in self.files}
+        uri = (a.uri.rstrip("/") + "/twin") if (a.uri.rstrip("/") + "/twin") not in used else a.uri + "-twin2"
+        b = SchemaFile(bidx, uri, f"f{bidx}.xsd")
+        b.imports = list(a.imports)
+        b.prefixes = {(bidx if k == a.idx else k): p for k, p in a.prefixes.items()}
+        b.xs_prefix = a.xs_prefix
+        b.nested_xmlns = a.nested_xmlns
+        swap = {"string": "int", "int": "boolean", "boolean": "string"}
+
+        def retarget(t):
+            if t is None or t.builtin:
+                return
+            if t.file == a.idx:
+                t.file = bidx
+
+        def rename(it):
+            if it.name.literal is None:
+                it.name = Name(it.name.words + ("twin",), it.name.style)
+            if it.type.builtin:
+                it.type = TypeRef(swap.get(it.type.name, "long" if it.type.name != "long" else "short"))
+
+        def walk(g):
+            for it in g.items:
+                if isinstance(it, Group):
+                    walk(it)
+                elif it.kind == "ref":
+                    retarget(it.ref)
+                else:
+                    retarget(it.type)
+                    rename(it)
+
+        for c in comps:
+            c.file = bidx
+            retarget(getattr(c, "base", None))
+            if c.kind == "gelement":
+                retarget(c.type)
+            content = getattr(c, "content", None)
+            if content is not None:
+                if content.group is not None:
+                    walk(content.group)
+                for at in content.attrs:
+                    retarget(at.type)
+                    rename(at)
+        b.components = comps
+        self.files.append(b)
+        avail = [p for p in PREFIX_POOL if p != a.xs_prefix]
+        for f in self.files[:-1]:
+            if a.idx in f.imports and f is not a:
+                f.imports.insert(f.imports.index(a.idx) + 1, bidx)
+                f.prefixes[bidx] = next(p for p in avail if p not in f.prefixes.values() and p != f.xs_prefix)
+        self.features.add("twin-file")
+
+    def spell_defaults(self):
+        """XSD lexical variation: write defaults out (minOccurs="1" maxOccurs="1" on elements and groups, use="optional" on
+        attributes). Same schema, other spelling. Uses a generator of its own so that the main stream is not shifted."""
+        import random
+        p = self.cfg.get("p_explicit_defaults", 0.3)
+        r2 = random.Random("spell:" + "|".join(c.name.xml for f in self.files for c in f.components))
+
+        def walk(g):
+            g.explicit = r2.random() < p
+            for it in g.items:
+                if isinstance(it, Group):
+                    walk(it)
+                else:
+                    it.explicit = r2.random() < p
+                    if it.explicit:
+                        self.features.add("explicit-default-occurs")
+
+        for f in self.files:
+            for c in f.components:
+                content = getattr(c, "content", None)
+                if content is None:
+                    continue
+                if content.group is not None:
+                    walk(content.group)
+                for a in content.attrs:
+                    a.explicit = r2.random() < p
 
     def add_decoys(self):
         """Name-collision decoys (C09): for a global element that is referred to by ref= from its own file, another type of that
@@ -651,6 +775,12 @@ def flat_members(c):
 
 def flat_member_snakes(c):
     return [m["name"].snake for m in flat_members(c)]
+
+
+def r2_twin(g):
+    """Decision whether to add a twin file, drawn outside the main stream (so that profiles without twins are not shifted)."""
+    import random
+    return random.Random("twin?" + "|".join(c.name.xml for f in g.files for c in f.components)).random()
 
 
 def generate(r, cfg):
